@@ -7,6 +7,7 @@ import (
 	"fmt"
 	"go/types"
 	"math/big"
+	"os"
 	"sort"
 	"strings"
 	"time"
@@ -119,6 +120,7 @@ type Engine struct {
 	panicWhere     string
 	Input          string
 	Outputs        []string
+	fbCache        map[*Term]*Term
 }
 
 type Stats struct {
@@ -235,6 +237,7 @@ func (e *Engine) resetPath(prefix []Decision) {
 	e.nondetUsed = nil
 	e.unwinding, e.panicWhere = false, ""
 	e.Outputs = nil
+	e.fbCache = nil
 	// fresh term table per path keeps memory bounded; variable names are
 	// deterministic per path so solver declarations can be reused.
 	e.tt = NewTermTable()
@@ -249,6 +252,16 @@ func (e *Engine) check(extra *Term, wantModel bool) (string, Model) {
 	}
 	t0 := time.Now()
 	res, m := e.solver.Check(as, wantModel)
+	if d := time.Since(t0); d > 2*time.Second && os.Getenv("SYMGO_SLOW") != "" {
+		x := ""
+		if extra != nil {
+			x = extra.SMT()
+			if len(x) > 600 {
+				x = x[:600]
+			}
+		}
+		fmt.Fprintf(os.Stderr, "SLOW %.1fs %s %s pc=%d extra=%s\n", d.Seconds(), res, e.harness, len(e.pc), x)
+	}
 	e.Stats.SolverTime += time.Since(t0)
 	e.Stats.SolverCalls++
 	switch res {
